@@ -29,6 +29,7 @@ def reset():
     ASSUME.clear()
     LOG.clear()
     _zv.clear()
+    _exp_cache.clear()
     global COLLECT
     COLLECT = None
 
@@ -143,6 +144,45 @@ def structural_sign(p):
     return (">" if strict else ">=") if sgn > 0 else ("<" if strict else "<=")
 
 
+def _expand_signed(p):
+    """(expanded p, True) if the expansion multiplied only by factors known to be positive"""
+    mult = []
+    e = ring.expand(p, mult)
+    ok = True
+    for g, k in mult:
+        if k % 2 == 0:
+            continue
+        d = ring.DEFS[g]
+        if structural_sign(d[1]) != ">" and not any(_ratio(d[1], q) is not None and _ratio(d[1], q) > 0 and o == ">" for q, o in ASSUME):
+            ok = False
+    return e, ok
+
+
+_exp_cache: dict = {}
+
+
+def _semantic_assumed(p, op):
+    if not any(g in ring.DEFS for g in p.gens()) and not any(g in ring.DEFS for q, _ in ASSUME for g in q.gens()):
+        return None
+    ep, ok = _expand_signed(p)
+    if not ok:
+        return None
+    for q, o in ASSUME:
+        k = q.key()
+        if k not in _exp_cache:
+            _exp_cache[k] = _expand_signed(q)
+        eq, ok2 = _exp_cache[k]
+        if not ok2:
+            continue
+        r = _ratio(ep, eq)
+        if r is not None and r != 0:
+            o2 = o if r > 0 else _FLIP[o]
+            v = _IMPLIES.get(o2, {}).get(op)
+            if v is not None:
+                return v
+    return None
+
+
 _IMPLIES = {
     ">": {">": True, ">=": True, "!=": True, "<": False, "<=": False, "==": False},
     "<": {"<": True, "<=": True, "!=": True, ">": False, ">=": False, "==": False},
@@ -177,6 +217,11 @@ def decide(p, op, why="branch"):
             return v
     if op in ("==", "!=") and ring.iszero(p):
         return op == "=="
+    # assumed up to a positive factor after clearing units (rotated / rescaled copies of an assumed quantity)
+    v = _semantic_assumed(p, op)
+    if v is not None:
+        STATS["syntactic"] += 1
+        return v
     # z3
     t0 = time.time()
     gens = set(p.gens())
